@@ -26,6 +26,53 @@ pub fn run(env: &Env) -> Report {
         let mut rep = Report::new("c09");
         let mut rng = Rng::new(seed.wrapping_mul(40503) ^ (ui as u64) << 18);
         let mut t = env.trace(&format!("c09.{}", ui));
+        // the shortest case of the suffix clause: a ONE-letter word with a learned choice, then that letter + a one-letter suffix
+        // (`ar`, `ei`, `or` …), in the same context and after a restart
+        if ui < 6 {
+            let base = ["a", "e", "o", "i", "u", "k"][ui];
+            let case = format!("c09-{}-short", ui);
+            t.line(&format!("case {}", case));
+            let xdg = env.fresh_xdg(&case);
+            let mut opts = Opts::none(); opts.phonetic_suggestion = true; opts.smart_quote = false;
+            if let Some(mut s) = Sess::new(&mut t, &env.data, "a", PHONETIC, opts, &xdg) {
+                let o = s.type_text(&mut t, base);
+                if let Some((c, sl)) = full(&o) { let c = c.clone();
+                    for idx in 0..c.len().min(6) {
+                        if idx == sl { continue; }
+                        let o = s.type_text(&mut t, base);
+                        let (c1, s1) = match full(&o) { Some(x) => (x.0.clone(), x.1), None => break };
+                        if idx >= c1.len() || idx == s1 { s.finish(&mut t); continue; }
+                        let core = c1[idx].clone();
+                        s.commit(&mut t, idx);
+                        for which in 0..2 {
+                            let mut b = if which == 0 { None } else { Sess::new(&mut t, &env.data, "b", PHONETIC, opts, &xdg) };
+                            for sk in ["r", "i", "o", "e", "y", "er", "ke"] {
+                                let sv = match env.data.suffix.get(sk) { Some(v) => v.clone(), None => continue };
+                                let t2 = format!("{}{}", base, sk);
+                                let store: HashMap<String, String> = std::fs::read(sel_path(&xdg)).ok().and_then(|b| serde_json::from_slice(&b).ok()).unwrap_or_default();
+                                if store.contains_key(&t2) { continue; }
+                                let n = t2.len();
+                                if (1..n).filter(|i| env.data.suffix.contains_key(&t2[*i..]) && store.contains_key(&t2[..*i])).count() != 1 { continue; }
+                                if let Some(j) = join(&core, &sv) {
+                                    let ctxs: &mut Sess = match b.as_mut() { Some(x) => x, None => &mut s };
+                                    let o = ctxs.type_text(&mut t, &t2);
+                                    if let Some((c5, s5)) = full(&o) {
+                                        if c5.contains(&j) && c5.get(s5) != Some(&j) {
+                                            rep.violation("C09", "suffixed-choice-not-derived", format!("learned {:?} for {:?}; for {:?} the joined candidate {:?} is offered but {:?} is preselected{}", core, base, t2, j, c5.get(s5), if which == 1 { " (after a restart)" } else { "" }),
+                                                json!({"stream": "c09", "layout": PHONETIC, "opts": opts.bits_str(), "text": t2, "events": ctxs.events, "at": "one-letter base"}));
+                                        }
+                                        rep.count("suffix-clause-one-letter-base"); rep.eval(Some(&format!("short|{}|{}|{}", base, idx, sk)));
+                                    }
+                                    ctxs.finish(&mut t);
+                                }
+                            }
+                            if b.is_some() { t.line("drop b"); }
+                        }
+                    }
+                }
+                t.line("drop a");
+            }
+        }
         for ci in 0..per {
             let mut opts = rand_opts(&mut rng); opts.phonetic_suggestion = true;
             if rng.chance(50) { opts.smart_quote = false; }
@@ -39,11 +86,12 @@ pub fn run(env: &Env) -> Report {
             let ctxv = |s: &Sess, what: &str| json!({"stream": "c09", "layout": PHONETIC, "opts": s.opts.bits_str(), "text": text, "events": s.events, "at": what});
             // in a third of the cases a PREFIX of the word has a learned choice of its own: typing the word then passes through a
             // text with a learned (non-zero) preselection on the way to a text without one
+            let mut prefix_learned = false;
             if ci % 3 == 1 && w.chars().count() > 1 {
                 let k = 1 + rng.below(w.chars().count() - 1);
                 let p: String = w.chars().take(k).collect();
                 let o = s.type_text(&mut t, &p);
-                match full(&o) { Some((c, sl)) if c.len() > 1 => { let i = (sl + 1 + rng.below(c.len() - 1)) % c.len(); s.commit(&mut t, i); rep.count("prefix-learned-first"); } _ => { s.finish(&mut t); } }
+                match full(&o) { Some((c, sl)) if c.len() > 1 => { let i = (sl + 1 + rng.below(c.len() - 1)) % c.len(); s.commit(&mut t, i); prefix_learned = true; rep.count("prefix-learned-first"); } _ => { s.finish(&mut t); } }
             }
             let o = s.type_text(&mut t, &text);
             let (cands, sel) = match full(&o) { Some(x) => (x.0.clone(), x.1), None => continue };
@@ -51,10 +99,14 @@ pub fn run(env: &Env) -> Report {
             // commit the preselected candidate first: nothing may change
             let before = std::fs::read(sel_path(&xdg)).ok();
             s.commit(&mut t, sel);
-            if std::fs::read(sel_path(&xdg)).ok() != before { rep.violation("C09", "preselected-commit-writes", "committing the preselected candidate changed the store".into(), ctxv(&s, "commit preselected")); }
+            // "preselected" is the index the ENGINE computed. After a punctuation key of the override set the index that comes back is the
+            // caller's byte — here the index shown for the text without that key, which a learned prefix can make non-zero — so for such a
+            // text the harness does not know the engine's own index and cannot say that this commit must be inert
+            let last_is_override = text.chars().last().map(|c| ".?!,:;-_)}]'\"".contains(c)).unwrap_or(false);
+            if !(prefix_learned && last_is_override) && std::fs::read(sel_path(&xdg)).ok() != before { rep.violation("C09", "preselected-commit-writes", "committing the preselected candidate changed the store".into(), ctxv(&s, "commit preselected")); }
             let o = s.type_text(&mut t, &text);
             let (cands2, sel2) = match full(&o) { Some(x) => (x.0.clone(), x.1), None => continue };
-            if cands2 != cands || sel2 != sel { rep.violation("C09", "preselected-commit-changes-suggestion", format!("after committing the preselected candidate, re-typing gives {:?}/{} instead of {:?}/{}", cands2, sel2, cands, sel), ctxv(&s, "retype")); }
+            if !(prefix_learned && last_is_override) && (cands2 != cands || sel2 != sel) { rep.violation("C09", "preselected-commit-changes-suggestion", format!("after committing the preselected candidate, re-typing gives {:?}/{} instead of {:?}/{}", cands2, sel2, cands, sel), ctxv(&s, "retype")); }
             // learn another candidate (every index in the systematic part: rotate)
             let idx = { let mut i = rng.below(cands.len()); if i == sel { i = (i + 1) % cands.len(); } i };
             let chosen = cands[idx].clone();
@@ -546,6 +598,14 @@ pub fn run_c11(env: &Env) -> Report {
             let ac1: HashMap<String, String> = words.iter().take(2).map(|w| (w.clone(), ["ami", "tumi", "kOr", "x"][rng.below(4)].to_string())).collect();
             let has_ac1 = rng.chance(60);
             if has_ac1 { std::fs::write(ac_path(&xdg), serde_json::to_string(&ac1).unwrap()).unwrap(); set_mtime(&ac_path(&xdg), 0); }
+            // half of the cases start over a learned-selection store written in an earlier run (choices for the words of this case and for
+            // a few others): a context is equivalent to a new one whatever it was created WITH
+            if ci % 2 == 0 {
+                let mut st: HashMap<String, String> = super::c05::store_sample();
+                for w in &words { let dir = direct(&env.data, &HashMap::new(), w); if dir.len() > 1 { st.insert(w.clone(), dir[1 + ci % (dir.len() - 1)].0.clone()); } }
+                std::fs::write(sel_path(&xdg), serde_json::to_string(&st).unwrap()).unwrap();
+                rep.count("store-exists-before-the-context");
+            }
             let mut a = match Sess::new(&mut t, &env.data, "a", &l1, o1, &xdg) { Some(s) => s, None => continue };
             let phon1 = l1 == PHONETIC;
             // history: the shared words are typed before the update (that is where staleness lives); some commits learn, and
